@@ -67,6 +67,11 @@ def formula_K(basis, G, D=None):
     return K.real
 
 
+def takes_shortcut(basis):
+    """guard of the d == 2 shortcut of calculate_cumulant_function (after fix 63446ae)"""
+    return bool(basis.d == 2 and basis.btype in ('Pauli', 'GGM') and basis.shape == (4, 2, 2) and basis == ff.Basis.pauli(1))
+
+
 def is_std_qubit_basis(basis):
     """d = 2, first element proportional to the identity, the others traceless (then the shortcut's assumptions hold)"""
     C = np.asarray(basis.view(np.ndarray))
@@ -153,7 +158,7 @@ def predicates(c, o):
     d = p.d
     bad = []
     basis = p.basis
-    shortcut = d == 2 and basis.btype in ('Pauli', 'GGM')
+    shortcut = takes_shortcut(basis)
     Kf = formula_K(basis, o['G'], o['D'])
     scale = max(np.abs(Kf).max(), np.abs(o['K']).max(), 1e-300)
     if not np.isfinite(o['K']).all():
@@ -220,7 +225,7 @@ def coq_case(name, c, o, big):
     G = o['G'].reshape(-1, n, n)
     D = G if o['D'] is None else o['D'].reshape(-1, n, n)
     K = o['K'].reshape(-1, n, n)
-    shortcut = d == 2 and p.basis.btype in ('Pauli', 'GGM')
+    shortcut = takes_shortcut(p.basis)
     sK = max(np.abs(K).max(), np.abs(G).max(), 1e-300)
     E = o['E']
     txt = (f"Definition {name} : N*N*N :=\n"
